@@ -170,6 +170,11 @@ def run(ctx):
     ctx.guard(_increment_glue, ctx, py)
     ctx.guard(_schema, ctx, py)
     ctx.guard(_standin, ctx, py)
+    ctx.guard(_fixed_point_standin, ctx, py)
+
+    # frame of the modules under contract (no state kept between calls, arguments left alone): same analysis as C19
+    from props import C19 as _C19
+    ctx.guard(_C19.frame_obligations, ctx, py, "C03", {'sim', 'earth', 'transform'})
 
 
 # ---------------------------------------------------------------------------------------------
@@ -539,6 +544,45 @@ def _standin(ctx, py):
             fails.append(dict(what="strapdown integration of the %s readings drifts from the returned trajectory: %s" % (st, d.abs().max().round(5).to_dict())))
     ctx.standin("C03.rt", "one analytic 3-axis motion (sinusoidal position, altitude and attitude; 20 s), real scipy splines: three input forms vs the closed-form (w, f, V) of the spec ODE at 100 and 50 ms (error small and at least halved), increment readings vs quadrature of rate readings, strapdown inversion for both sensor types",
                 10, fails, time_s=time.time() - t0)
+
+
+def _fixed_point_standin(ctx, py):
+    """Bounded stand-in for the exit condition of the latitude fixed-point loop (initial position + velocity form): the
+    loop may stop early only when EVERY sample has converged.  Post-condition checked on the real function with the real
+    splines: the returned latitude is a fixed point of the iteration map lat -> lat0 + int VN / (M(lat) + h) to well below
+    the loop's own accuracy (1 cm), at every sample -- on open trajectories and on out-and-back ones, where the last
+    sample is back at the start while the middle of the record is kilometres away."""
+    from scipy.interpolate import CubicSpline
+    t0 = time.time()
+    fails = []
+    cases = []
+    tt = np.arange(0.0, 400.0 + 0.25, 0.5)
+    for lat0 in (35.0, -35.0, 70.0):
+        for amp, kind in ((60.0, "out-and-back"), (40.0, "open"), (0.0, "at rest")):
+            if kind == "out-and-back":
+                VN = amp * np.sin(2 * np.pi * tt / tt[-1])          # returns to the starting latitude at the last sample
+            elif kind == "open":
+                VN = amp * (1 + 0.3 * np.sin(2 * np.pi * tt / 120.0))
+            else:
+                VN = np.zeros_like(tt)
+            VE = 20.0 * np.cos(2 * np.pi * tt / 200.0)
+            VD = 2.0 * np.sin(2 * np.pi * tt / 100.0)
+            cases.append((lat0, kind, np.column_stack([VN, VE, VD])))
+    for lat0, kind, vel in cases:
+        rph = np.zeros((len(tt), 3))
+        traj, _ = py.sim.generate_imu(tt, [lat0, 10.0, 500.0], rph, vel, "rate")
+        lat = traj["lat"].values
+        alt = traj["alt"].values
+        rn = py.earth.principal_radii(lat, alt)[0]
+        lat_map = np.deg2rad(lat0) + CubicSpline(tt, vel[:, 0] / rn).antiderivative()(tt)
+        resid = np.abs(np.deg2rad(lat) - lat_map) * rn
+        if not np.all(resid < 0.005):
+            k = int(np.argmax(resid))
+            fails.append(dict(initial_latitude=lat0, trajectory=kind, worst_sample=k, time=float(tt[k]),
+                              fixed_point_residual_m=float(resid[k]), residual_at_last_sample_m=float(resid[-1]),
+                              note="the latitude returned is not consistent with the velocity it is returned with"))
+    ctx.standin("C03.rt.initial_form_fixed_point", "%d trajectories (3 latitudes x out-and-back / open / at rest, 400 s at 2 Hz), initial position + velocity form: "
+                "returned latitude is a fixed point of the kinematic iteration within 5 mm at every sample" % len(cases), len(cases), fails, time_s=time.time() - t0)
 
 
 def replay(obligation, cex):
